@@ -445,6 +445,14 @@ theorem dropped_setCr_picks (s : State) (c : Nat) (f : ClassRegs → ClassRegs)
   · rw [h]
   · rw [h, (hf _).1, (hf _).2]
 
+theorem dropped_setCr_pickS (s : State) (c : Nat) (X : ClassRegs → Reg) (w : Nat) (k : Key) :
+    dropped (s.setCr c (fun r => { r with pickedBySetup := X r })) w k = dropped s w k :=
+  dropped_setCr_picks s c (fun r => { r with pickedBySetup := X r }) (fun _ => ⟨rfl, rfl⟩) w k
+
+theorem dropped_setCr_pickC (s : State) (c : Nat) (X : ClassRegs → Reg) (w : Nat) (k : Key) :
+    dropped (s.setCr c (fun r => { r with pickedByCleanup := X r })) w k = dropped s w k :=
+  dropped_setCr_picks s c (fun r => { r with pickedByCleanup := X r }) (fun _ => ⟨rfl, rfl⟩) w k
+
 /-- one more entry in a dropped register: nothing gets undropped -/
 theorem dropped_setCr_mono (s : State) (c : Nat) (f : ClassRegs → ClassRegs)
     (hf : ∀ r, ((f r).droppedSetup = r.droppedSetup ∨ ∃ k, (f r).droppedSetup = regAdd r.droppedSetup k) ∧
@@ -972,8 +980,7 @@ theorem prepare_explored (g : Graph) (s : State) (w : Nat) (hexp : Explored g s)
 theorem pickChild_spec (gv : Graph) (s : State) (n w c : Nat) (s' : State) (h : pickChild gv s n w = some (c, s')) :
     c ∈ (gv.node n).cleanup.map (·.1) ∧
     (regWorkers (s.cr (gv.node n).cls).droppedCleanup (some (gv.node c).cls)).contains w = false ∧
-    ∃ f : ClassRegs → ClassRegs, s' = s.setCr (gv.node c).cls f ∧
-      ∀ r, (f r).droppedSetup = r.droppedSetup ∧ (f r).droppedCleanup = r.droppedCleanup := by
+    s' = s.setCr (gv.node c).cls (fun r => { r with pickedBySetup := regAdd r.pickedBySetup ((gv.node n).cls, w) }) := by
   unfold pickChild at h
   dsimp only at h
   split at h
@@ -985,13 +992,12 @@ theorem pickChild_spec (gv : Graph) (s : State) (n w c : Nat) (s' : State) (h : 
     have h2 := hd.2
     simp only [Bool.and_eq_true, Bool.not_eq_true'] at h2
     rw [← h.1]
-    exact ⟨hd.1, h2.2, _, h.2.symm, fun _ => ⟨rfl, rfl⟩⟩
+    exact ⟨hd.1, h2.2, h.2.symm⟩
 
 theorem pickParent_spec (gv : Graph) (s : State) (n w c : Nat) (s' : State) (h : pickParent gv s n w = some (c, s')) :
     c ∈ (gv.node n).setup.map (·.1) ∧
     (regWorkers (s.cr (gv.node n).cls).droppedSetup (some (gv.node c).cls)).contains w = false ∧
-    ∃ f : ClassRegs → ClassRegs, s' = s.setCr (gv.node c).cls f ∧
-      ∀ r, (f r).droppedSetup = r.droppedSetup ∧ (f r).droppedCleanup = r.droppedCleanup := by
+    s' = s.setCr (gv.node c).cls (fun r => { r with pickedByCleanup := regAdd r.pickedByCleanup ((gv.node n).cls, w) }) := by
   unfold pickParent at h
   dsimp only at h
   split at h
@@ -1003,7 +1009,7 @@ theorem pickParent_spec (gv : Graph) (s : State) (n w c : Nat) (s' : State) (h :
     have h2 := hd.2
     simp only [Bool.and_eq_true, Bool.not_eq_true'] at h2
     rw [← h.1]
-    exact ⟨hd.1, h2.2, _, h.2.symm, fun _ => ⟨rfl, rfl⟩⟩
+    exact ⟨hd.1, h2.2, h.2.symm⟩
 
 /-- edges of the visible graph are edges of the full graph -/
 theorem vis_setup_sub (g : Graph) (s : State) (n p : Nat) (h : p ∈ ((vis g s).node n).setup.map (·.1)) :
@@ -1219,7 +1225,7 @@ theorem afterTraverse_cont (g : Graph) (d : Nat → Nat) (hr : Ranked g d) (hsym
       | some r =>
         obtain ⟨c, s3⟩ := r
         simp only [hpk] at hc ⊢
-        obtain ⟨hcm, hnd, f, hs3, hf⟩ := pickChild_spec _ s2 next w c s3 hpk
+        obtain ⟨hcm, hnd, hs3⟩ := pickChild_spec _ s2 next w c s3 hpk
         have hw3 : w < s3.workers.length := by rw [hs3]; exact hw2
         refine ⟨.pushDown next c hlast ?_ (vis_cleanup_sub g sv next c hcm) ?_ (Or.inr (by rw [← hprev]; exact hdown)) ?_
           (by rw [← vis_relevant g sv]; exact (pickChild_rel _ s2 next w c s3 hpk).1), ?_⟩
@@ -1230,7 +1236,7 @@ theorem afterTraverse_cont (g : Graph) (d : Nat → Nat) (hr : Ranked g d) (hsym
           rw [← hd2]; exact hnd
         · intro k
           unfold pushPath
-          rw [dropped_setWd, hs3, dropped_setCr_picks s2 _ f hf, hd2]
+          rw [dropped_setWd, hs3, dropped_setCr_pickS, hd2]
         · unfold pushPath
           rw [hs3]
           exact f2.keep.trans ((keep_setCr s2 _ _).trans (keep_setWd _ w _))
@@ -1315,7 +1321,7 @@ theorem iter_cont (g : Graph) (d : Nat → Nat) (hr : Ranked g d) (hsym : EdgeSy
         | some r =>
           obtain ⟨c, s3⟩ := r
           simp only [hpk] at hc ⊢
-          obtain ⟨hcm, hnd, f, hs3, hf⟩ := pickChild_spec _ s next w c s3 hpk
+          obtain ⟨hcm, hnd, hs3⟩ := pickChild_spec _ s next w c s3 hpk
           have hw3 : w < s3.workers.length := by rw [hs3]; exact hw
           refine ⟨.pushDown next c hl ?_ (vis_cleanup_sub g s next c hcm) ?_ (Or.inl hlen1') ?_
             (by rw [← vis_relevant g s]; exact (pickChild_rel _ s next w c s3 hpk).1), ?_⟩
@@ -1323,7 +1329,7 @@ theorem iter_cont (g : Graph) (d : Nat → Nat) (hr : Ranked g d) (hsym : EdgeSy
           · rw [vis_cls, vis_cls] at hnd; exact hnd
           · intro k
             unfold pushPath
-            rw [dropped_setWd, hs3, dropped_setCr_picks s _ f hf]
+            rw [dropped_setWd, hs3, dropped_setCr_pickS]
           · unfold pushPath
             rw [hs3]
             exact (keep_setCr s _ _).trans (keep_setWd _ w _)
@@ -1353,7 +1359,7 @@ theorem iter_cont (g : Graph) (d : Nat → Nat) (hr : Ranked g d) (hsym : EdgeSy
             | some r =>
               obtain ⟨c, s3⟩ := r
               dsimp only
-              obtain ⟨hcm, hnd, f, hs3, hf⟩ := pickParent_spec _ s next w c s3 hpk
+              obtain ⟨hcm, hnd, hs3⟩ := pickParent_spec _ s next w c s3 hpk
               have hw3 : w < s3.workers.length := by rw [hs3]; exact hw
               refine ⟨.pushUp next c hl ?_ (vis_setup_sub g s next c hcm) ?_ ?_
                 (by rw [← vis_relevant g s]; exact (pickParent_rel _ s next w c s3 hpk).1), ?_⟩
@@ -1361,7 +1367,7 @@ theorem iter_cont (g : Graph) (d : Nat → Nat) (hr : Ranked g d) (hsym : EdgeSy
               · rw [vis_cls, vis_cls] at hnd; exact hnd
               · intro k
                 unfold pushPath
-                rw [dropped_setWd, hs3, dropped_setCr_picks s _ f hf]
+                rw [dropped_setWd, hs3, dropped_setCr_pickC]
               · unfold pushPath
                 rw [hs3]
                 exact (keep_setCr s _ _).trans (keep_setWd _ w _)
@@ -1709,7 +1715,7 @@ theorem afterTraverse_any (g : Graph) (d : Nat → Nat) (hr : Ranked g d) (hsym 
           | some r =>
             obtain ⟨c, s3⟩ := r
             dsimp only
-            obtain ⟨hcm, _, f, hs3, _⟩ := pickChild_spec _ s1 next w c s3 hpk
+            obtain ⟨hcm, _, hs3⟩ := pickChild_spec _ s1 next w c s3 hpk
             have a3 : LW w sF s3 := by rw [hs3]; exact a1.trans (lw_setCr w s1 _ _)
             exact own_push a3 hw c (walk_pushDown g d hr hsym _ next c hwalk hlast (vis_cleanup_sub g sv next c hcm)
               (Or.inr (by rw [← hprev]; exact hdir rfl)))
@@ -1864,7 +1870,7 @@ theorem iter_any (g : Graph) (d : Nat → Nat) (hr : Ranked g d) (hsym : EdgeSym
         | some r =>
           obtain ⟨c, s3⟩ := r
           dsimp only
-          obtain ⟨hcm, _, f, hs3, _⟩ := pickParent_spec _ s next w c s3 hpk
+          obtain ⟨hcm, _, hs3⟩ := pickParent_spec _ s next w c s3 hpk
           exact pushed s3 c (by rw [hs3]; exact lw_setCr w s _ _) hw
             (walk_pushUp g d hr hsym _ next c hwalk hl (vis_setup_sub g s next c hcm))
       by_cases hlen1 : ((s.wd w).path.length == 1) = true
@@ -1875,7 +1881,7 @@ theorem iter_any (g : Graph) (d : Nat → Nat) (hr : Ranked g d) (hsym : EdgeSym
         | some r =>
           obtain ⟨c, s3⟩ := r
           dsimp only
-          obtain ⟨hcm, _, f, hs3, _⟩ := pickChild_spec _ s next w c s3 hpk
+          obtain ⟨hcm, _, hs3⟩ := pickChild_spec _ s next w c s3 hpk
           exact pushed s3 c (by rw [hs3]; exact lw_setCr w s _ _) hw
             (walk_pushDown g d hr hsym _ next c hwalk hl (vis_cleanup_sub g s next c hcm) (Or.inl hlen1'))
       · simp only [hlen1, Bool.false_eq_true, if_false]
